@@ -264,7 +264,7 @@ class Compiler:
         targets_name_map = {target.name: idx for idx, target in enumerate(c_targets) if target.name is not None}
         # Only targets appearing in the SELECT targets list can be
         # referenced by index. These are guaranteed to have a valid name.
-        n_targets = len(targets_name_map)
+        n_targets = len([target for target in c_targets if target.name is not None])
 
         order_spec = []
 
